@@ -90,7 +90,7 @@ def gen(name, g):
             continue     # the consumer cannot even run while that channel's send is suspended (queue-wide lock held: the recorded C20 finding)
         stub = "\n        #[kani::stub(crate::streams_manager::StreamsManagerBase::sync_vacant_and_used_streams, sm::sync_model)]" if fn == "stream_ids_recycle" else ""
         if "zero_copy" in name and fn not in ("send_wakes_parked_stream", "send_with_wakes_parked_stream", "send_with_async_wakes_parked_stream",
-                                              "try_send_reserved_wakes_parked_stream", "suspended_async_send_holds_nothing", "suspended_async_send_blocks_nobody", "resumed_async_send_wakes"):
+                                              "try_send_reserved_wakes_parked_stream", "suspended_async_send_holds_nothing", "suspended_async_send_blocks_nobody"):
             props += " tier=thorough"
         hs.append(f"        // @props {props}\n        #[kani::proof] #[kani::unwind($unw)] #[kani::stub(std::hint::spin_loop, noop)]{stub}\n        fn {fn}() {{ {call} }}")
     return f"""// GENERATED by /verif/kani/gen/gen_uni.py -- do not edit by hand.
